@@ -153,6 +153,9 @@ def monitor_lex(chk, prop, meta, res, report_c08=False):
         if rec.get("panic"):
             if report_c08:
                 viol("step_budget" if "step budget" in rec["panic"] else "panic", {"panic": rec["panic"]})
+            elif want[0] != "tie":
+                # the reference lexer has an answer for this text, the generated one has none
+                viol("parse_did_not_return_a_result", {"panic": rec["panic"], "reference": want})
             chk.count("panics")
             continue
         if report_c08:
